@@ -134,6 +134,9 @@ def job_list(tier):
             jobs.append((f"dev:{name}:{tag}", src))
     two = ["10 A=1\n20 B=2", "10 REM X\n20 PRINT A", '10 PRINT "X"\n20 GOTO 10', '10 A$="X\n20 B=1', "10 DATA 1,B C\n20 READ A,B$", "10 ' X\n20 END",
            "10 IF A=1 THEN 20\n20 END", "10 FOR I=1 TO 2\n20 NEXT I", '10 INPUT "P";A\n20 PRINT A', "10 DATA X Y\n20 DATA 2\n30 READ A$,B"]
+    # every kind of last token in front of the end of the text: final line end / blank line / trailing NUL directly after it
+    two += ["10 DATA 1,2", "10 DATA &HFF", "10 DATA 1,", "10 DATA X", '10 DATA "X"', "10 A=1", "10 A=1.5E3", "10 A=&HFF", '10 A$="X"', '10 A$="X', "10 REM X", "10 ' X",
+            "10 PRINT A", "10 PRINT A;", "10 GOTO 10", "10 CLS 0", "10 NEXT", "10 RETURN", "10 HLINE(1,2)-(3,4),PSET,BF", "10 INPUT A$", "10 A=B(1)", "10 DIM A(3)"]
     for src in two:
         # line-end / tail / PRINT-spelling choices only (blank gaps are covered by the single-line skeletons)
         try:
